@@ -222,6 +222,10 @@ def synthetic(seed, i):
     nres = rng.randint(2, 4)
     for r in range(nres):
         auth = ResidueAuth(rng.choice(["A", "A", "B"]), r + 1, rng.choice([None, None, "A"]), rng.choice(["A", "G", "C", "U", "HOH"]))
+        if residues and rng.random() < 0.3:
+            # micro-heterogeneity: another residue (other name) on the chain, number and insertion code of the previous one
+            p = residues[-1].auth
+            auth = ResidueAuth(p.chain, p.number, p.icode, rng.choice([x for x in ["A", "G", "C", "U", "PSU"] if x != p.name]))
         atoms = []
         for k in range(rng.randint(2, 6)):
             nm = rng.choice(names)
@@ -236,6 +240,8 @@ def synthetic(seed, i):
                 v = np.array([rng.gauss(0, 1) for _ in range(3)])
                 v = v / np.linalg.norm(v) * max(d, 0.05)
                 p = np.array([other.x, other.y, other.z]) + v
+                if rng.random() < 0.12:
+                    p = np.array([other.x, other.y, other.z])  # superposed atoms: distance exactly 0
             else:
                 p = rng.choice(base) + np.array([rng.uniform(-1, 1) for _ in range(3)])
             occ = rng.choice([1.0, 1.0, 0.5, 0.5, 0.3, 0.7, 0.0, None, 0.25])
